@@ -847,7 +847,7 @@ impl Check for C06 {
         }
     }
 
-    fn generate(&self, g: &mut Xo, _tier: Tier, _run: u64) -> Sc {
+    fn generate(&self, g: &mut Xo, _tier: Tier, run: u64) -> Sc {
         let rng = RngSpec::swarm(g);
         match g.below(10) {
             0 | 1 => {
@@ -880,6 +880,8 @@ impl Check for C06 {
                     2 if g.chance(1, 20) => g.log_uniform(9, 2000),
                     _ => g.urange(0, 8),
                 };
+                // every fourth tree scenario sweeps the population sizes 0..=130 densely (by run index)
+                let n = if run % 4 == 1 { ((run / 4) % 131) as usize } else { n };
                 let cases = if n > 8 && g.coin() { g.log_uniform(1, 40) } else { g.urange(0, 4) };
                 let ragged = g.chance(1, 4);
                 let pop = (0..n)
